@@ -151,6 +151,12 @@ def run(ctx):
     def sampler(r):
         return C.sample(r, html=False)
 
+    from vf import families as F
+    for i, fam in enumerate(sorted(F.FAMILIES)):
+        for size, conf in ((2500, {"preset": "js-default"}), (6000, {"preset": "commonmark", "options": {"html": False}, "enable": ["table", "strikethrough"]})):
+            if ctx.mine(i * 2 + size) or not ctx.quick:
+                ctx.count("wl.path_families")
+                check_case(ctx, {"conf": conf, "src": F.build(fam, size)}, minimize=False)
     for kind, conf, src in W.documents(ctx, n, conf_sampler=sampler, doc_gen=doc_gen,
                                        lines_confs=[{"preset": "js-default"}, {"preset": "commonmark", "options": {"html": False}, "enable": ["table"]}]):
         W.conf_counts(ctx, conf)
